@@ -160,6 +160,9 @@ func (idx *index) get(hash uint32, matchKey matchKeyFunc) error {
 
 func (idx *index) findInsertionBucket(newSlot slot, matchKey matchKeyFunc) (*slotWriter, bool, error) {
 	sw := &slotWriter{}
+	// The first empty slot of the chain. Deleting an item can leave an empty slot in a bucket
+	// that is followed by overflow buckets, the rest of the chain still has to be searched for the key.
+	var free *slotWriter
 	it := idx.newBucketIterator(idx.bucketIndex(newSlot.hash))
 	for {
 		b, err := it.next()
@@ -174,9 +177,11 @@ func (idx *index) findInsertionBucket(newSlot slot, matchKey matchKeyFunc) (*slo
 		for i = 0; i < slotsPerBucket; i++ {
 			sl := b.slots[i]
 			if sl.offset == 0 {
-				// Found an empty slot.
-				sw.slotIdx = i
-				return sw, false, nil
+				// Found an empty slot, the remaining slots of the bucket are empty too.
+				if free == nil {
+					free = &slotWriter{bucket: &b, slotIdx: i}
+				}
+				break
 			}
 			if newSlot.hash != sl.hash {
 				continue
@@ -194,6 +199,9 @@ func (idx *index) findInsertionBucket(newSlot slot, matchKey matchKeyFunc) (*slo
 		}
 		if b.next == 0 {
 			// No more buckets in the chain.
+			if free != nil {
+				return free, false, nil
+			}
 			sw.slotIdx = i
 			return sw, false, nil
 		}
